@@ -721,6 +721,12 @@ def search(ctx, hints):
             vals = sorted({round(rng.uniform(-5, 5), rng.choice([1, 2, 6])) for _ in range(n)})
             bins = vals[::-1] if rng.random() < 0.5 and len(vals) > 1 else vals               # decimal edges
         xs = query_values(bins) + [rng.uniform(-6, 6) for _ in range(4)]
+        # the float32 roundings of the edges and their float32 neighbours: float32-representable points (so the cast of x
+        # is harmless) that lie within one float32 ulp of an edge, on either side
+        for b_ in bins[:12]:
+            f = numpy.float32(b_)
+            xs += [float(f), float(numpy.nextafter(f, numpy.float32(numpy.inf))),
+                   float(numpy.nextafter(f, numpy.float32(-numpy.inf)))]
         cases.append((bins, xs))
     observations = []
     try:
